@@ -111,9 +111,24 @@ func newGroupT(modes []fakeprom.Mode, required bool, everTimesOut []bool) *group
 	g := &group{reg: prometheus.NewRegistry()}
 	clock := &fakeprom.Clock{}
 	var proms []*promapi.Prometheus
+	// fake servers get addresses in creation order (127.a.b.c counts up); configured order must not coincide with
+	// the order of the URIs every time, so in half of the groups the servers are created back to front
+	g.ups = make([]*fakeprom.Upstream, len(modes))
+	h := 0
+	for _, m := range modes {
+		for _, b := range []byte(m) {
+			h += int(b)
+		}
+	}
+	for k := range modes {
+		i := k
+		if h%2 == 1 {
+			i = len(modes) - 1 - k
+		}
+		g.ups[i] = fakeprom.NewUpstream(i, modes[i], nil, clock)
+	}
 	for i, m := range modes {
-		u := fakeprom.NewUpstream(i, m, nil, clock)
-		g.ups = append(g.ups, u)
+		u := g.ups[i]
 		timeout := 30 * time.Second
 		if m == fakeprom.ModeTimeout {
 			timeout = 20 * time.Millisecond // pint adds one second to it
